@@ -222,13 +222,15 @@ def run(ctx):
             refine_probe(ctx, d, g, nref, cls)
 
     # copula credit grids (n-d, symmetric and not)
-    for _ in range(ctx.n(3, 12)):
+    for it in range(ctx.n(5, 14)):
         dim = rng.choice([2, 3])
         margins = [zoo.make_levy(f, p) for f, p in [(rng.choice(["hem", "merton", "vg", "cgmy"]), {}) for _ in range(dim)]]
         cm_ = zoo.make_copula_model(margins, zoo.make_copula(rng.choice(zoo.COPULAS)))
         h = rng.choice([0.1, 0.05])
-        sym = rng.choice([True, False])
+        sym = [True, False][it % 2]
         a = [-rng.choice([0.25, 0.3, 0.4]) for _ in range(dim)]
+        if it % 3 != 2 and len(set(a)) == 1:      # most cases: one threshold per margin, not all equal
+            a[-1] = -rng.choice([x for x in (0.25, 0.3, 0.4) if x != -a[0]])
         d = dict(kind="credit_nd", dim=dim, h=h, a=a, sym=sym, margins=[type(m).__name__ for m in margins])
         cls = dict(kind="credit_nd", sym=sym)
         try:
@@ -259,8 +261,20 @@ def run(ctx):
         dim = rng.choice([1, 1, 2, 3])
         shared = rng.random() < 0.5
         axes = [axis] * dim if shared else [axis.copy() for _ in range(dim)]
-        g = zoo.CTMCGrid(h=h, origin_coordinate=n_left, axes=axes)
         d = dict(kind="synthetic", axis=[float(x) for x in axis], h=h, origin=n_left, dim=dim, shared=shared)
+        if dim > 1 and not shared and rng.random() < 0.6:
+            # per-axis storage with axes that really differ: same length, same end points, same -h/0/+h, other interior
+            # points (what CTMCCredit builds for unequal thresholds) - each axis must be refined on its own
+            movable = [i for i in range(1, len(axis) - 1) if abs(i - n_left) > 1]
+            if movable:
+                for k in range(1, dim):
+                    i = rng.choice(movable)
+                    lo_, hi_ = axes[k][i - 1], axes[k][i + 1]
+                    cand = [lo_ + (hi_ - lo_) * q for q in (0.25, 0.375, 0.625, 0.75)]
+                    cand = [c for c in cand if c != axes[k][i]]
+                    axes[k][i] = rng.choice(cand)
+                d["axes"] = [[float(x) for x in a] for a in axes]
+        g = zoo.CTMCGrid(h=h, origin_coordinate=n_left, axes=axes)
         refine_probe(ctx, d, g, rng.randint(1, kmax + 1), dict(kind="synthetic"))
 
 
@@ -271,6 +285,8 @@ def replay(ctx, rec):
     if d.get("kind") == "synthetic":
         axis = np.array(d["axis"])
         axes = [axis] * d["dim"] if d["shared"] else [axis.copy() for _ in range(d["dim"])]
+        if "axes" in d:
+            axes = [np.array(a) for a in d["axes"]]
         g = zoo.CTMCGrid(h=d["h"], origin_coordinate=d["origin"], axes=axes)
         refine_probe(ctx, {k: v for k, v in d.items() if k != "k"}, g, d.get("k", 2), cls)
         return
@@ -284,3 +300,12 @@ def replay(ctx, rec):
         g, gd = zoo.make_grid(d["kind"], model, d["h"], dimension=d.get("dim", 1), **kw)
         if wellformed_oracle(ctx, "c13.constructor.wellformed", d, g, cls):
             refine_probe(ctx, {k: v for k, v in d.items() if k != "k"}, g, d.get("k", 2), cls)
+        return
+    if d.get("kind") == "credit_nd":
+        fams = {"HEMModel": "hem", "MertonModel": "merton", "VarianceGammaModel": "vg", "CGMYModel": "cgmy"}
+        margins = [zoo.make_levy(fams[m], {}) for m in d["margins"]]
+        for cop in zoo.COPULAS:          # the axes do not depend on the copula: rebuild with each kind
+            cm_ = zoo.make_copula_model(margins, zoo.make_copula(cop))
+            g = zoo.CTMCCredit(h=d["h"], level_a=list(d["a"]), model=cm_, symmetric_grid=d["sym"])
+            if wellformed_oracle(ctx, "c13.constructor.wellformed", d, g, cls):
+                refine_probe(ctx, {k: v for k, v in d.items() if k != "k"}, g, d.get("k", 2), cls)
